@@ -182,6 +182,20 @@ pub fn build_case(t: &mut Tape, params: &Params) -> Case {
     }
 }
 
+/// Size labels: thresholds that only the `huge` / `wide` stages reach.
+pub fn size_labels(u: &Universe, labels: &mut Vec<&'static str>) {
+    let big = u.packages.iter().map(|p| p.cands.len()).max().unwrap_or(0);
+    if big >= 256 {
+        labels.push("package>=256-candidates");
+    }
+    if big >= 4096 {
+        labels.push("package>=4096-candidates");
+    }
+    if u.n_solvables() > 256 {
+        labels.push("solvables>256");
+    }
+}
+
 /// Feature labels of a universe/problem used for histograms and non-triviality rules.
 pub fn feature_count(u: &Universe, p: &Problem) -> (usize, Vec<&'static str>) {
     let mut f = vec![];
